@@ -1,10 +1,13 @@
 import CacheVerif.Proofs.CacheLedger
 import CacheVerif.Model.CacheOf
 import CacheVerif.Proofs.Twin
+import CacheVerif.Proofs.ConcCacheLin
 /-!
-# C06 — the evicted callback fires exactly once per removed entry, with that very entry (sequential part)
+# C06 — the evicted callback fires exactly once per removed entry, with that very entry
 
-Property theorems only (helper lemmas live in `Proofs/CacheLedger.lean`).  `Res.cbs` is the ledger of one
+Property theorems only (helper lemmas live in `Proofs/CacheLedger.lean` and `Proofs/ConcCacheLin.lean`).  First
+the sequential part (`Model.Cache`), then the concurrent part (`C06_conc_*`, about M5 `Model.ConcCache`: any
+number of threads, any schedule, clock ticks at any moment).  `Res.cbs` is the ledger of one
 call: the evicted-callback invocations it made (callback id, key, value), in order.  The statements are about
 the physical content `s.items` of `Model.Cache` (an expired entry that is still stored is an entry; removing
 it fires the callback).
@@ -147,5 +150,145 @@ example : (Cache.step exS (.getAndDelete "live")).2 = { out := .val 1 true, cbs 
 example : (Cache.step exS (.delete "absent")).2.cbs = [] := by decide
 example : (Cache.step (Cache.step exS (.setEvictedCallback none)).1 (.delete "live")).2.cbs = [] := by decide
 example : (Cache.step exS (.get "dead")).2.cbs = [] ∧ (Cache.step exS (.get "dead")).1.items.get "dead" = none := by decide
+
+/-! ## Concurrent part (M5, `Model.ConcCache`): every schedule
+
+`g.ledger` is the global log of callback invocations; per thread and call, ghost `erased` lists the entries the
+call's own `Compute`s physically removed from the map and ghost `fired` the entries it invoked the callback with,
+both in order; `ec` is the callback the call read. -/
+section Conc
+open Proofs.ConcCacheLin
+
+/-- **Every callback invocation reports an entry the calling thread removed earlier in the same call.**  For
+every step of every run: either the ledger is unchanged, or exactly one invocation `(cb, k, v)` is appended by
+a firing step of `GetAndDelete`/`Delete` (`gdFire`) or of `DeleteExpired` (`deFire`), `cb` is the callback the call
+read, `(k, v)` is in the list of entries this very call removed, and the step removes nothing. -/
+theorem C06_conc_ledger_only_removed (dflt : Int) (cb : Option Nat) (now : Int) (h0 : 0 ≤ now)
+    (s s' : ConcCache.St K V) (t : ConcCache.Tid) (c : ConcCache.Choice K V) (δ : Nat)
+    (hr : ConcCache.Reach dflt cb now s) (hs : ConcCache.step s (some t) c δ = some s') :
+    s'.g.ledger = s.g.ledger ∨
+    ∃ cb k v, s'.g.ledger = s.g.ledger ++ [(cb, k, v)] ∧ (s.l t).ec = some cb ∧ (k, v) ∈ (s.l t).erased ∧
+      s'.g.items = s.g.items ∧
+      (((s.l t).pc = .gdFire ∧ ConcCache.opKey (s.l t) = some k ∧ ∃ i, (s.l t).removed = some i ∧ i.v = v) ∨
+       ((s.l t).pc = .deFire ∧ ∃ rest, (s.l t).queue = (k, v) :: rest ∧ (s'.l t).queue = rest)) := by
+  obtain ⟨_, hl, hst, _, _⟩ := reach_tstep dflt cb now h0 s s' t c δ hr hs
+  exact ledger_only_removed t s.g (s.l t) c s'.g (s'.l t) hl hst
+
+/-- a clock tick fires nothing and changes no thread's locals -/
+theorem C06_conc_tick_silent (s s' : ConcCache.St K V) (c : ConcCache.Choice K V) (δ : Nat)
+    (hs : ConcCache.step s none c δ = some s') : s'.g.ledger = s.g.ledger ∧ s'.l = s.l := by
+  simp only [ConcCache.step, Option.some.injEq] at hs
+  subst hs
+  exact ⟨rfl, rfl⟩
+
+/-- **An entry enters a call's `erased` list only by being physically removed by that call.**  For every step of
+every run, the stepping thread's `erased` list is unchanged, or reset by the start of a new call, or extended by
+one `(k, i.v)` by the `Compute` of `GetAndDelete`/`Delete` or of `DeleteExpired`, and then `k ↦ i` was in the map
+before that very step and `k` is absent after it. -/
+theorem C06_conc_removal_is_physical (dflt : Int) (cb : Option Nat) (now : Int) (h0 : 0 ≤ now)
+    (s s' : ConcCache.St K V) (t : ConcCache.Tid) (c : ConcCache.Choice K V) (δ : Nat)
+    (hr : ConcCache.Reach dflt cb now s) (hs : ConcCache.step s (some t) c δ = some s') :
+    (s'.l t).erased = (s.l t).erased ∨ ((s.l t).pc = .idle ∧ (s'.l t).erased = []) ∨
+    ∃ k i, ((s.l t).pc = .gdCompute ∨ (s.l t).pc = .deCompute) ∧ (s'.l t).erased = (s.l t).erased ++ [(k, i.v)] ∧
+      s.g.items.get k = some i ∧ s'.g.items.get k = none := by
+  obtain ⟨_, _, hst, _, _⟩ := reach_tstep dflt cb now h0 s s' t c δ hr hs
+  exact erased_step t s.g (s.l t) c s'.g (s'.l t) hst
+
+/-- **Per call, what fired is exactly what was removed — once each, in order.**  In every reachable state, a
+thread about to return (`pc = ret`) is returning from some call `op`, and:
+* if `op` is `GetAndDelete`, `Delete` or `DeleteExpired` (also the janitor's pass): when the call read a callback
+  (`ec = some _`), the list of entries it invoked the callback with *is* the list of entries it physically
+  removed (same entries, same multiplicity, same order); when it read that no callback is installed, it fired
+  nothing.  (`GetAndDelete`/`Delete` read the callback only after having removed an entry: for a call that found
+  the key absent `ec` is whatever an earlier call of the thread left there, and then both lists are empty — see
+  `C06_conc_getAndDelete_at_ret`.)
+* every other call — `Set`, the read-modify-write calls, `Clear`, the setters, and the `Get` family whose lazy
+  expiry delete removes an expired entry *without* callback — fired nothing, and removed nothing through the
+  callback paths. -/
+theorem C06_conc_fired_eq_erased_at_ret (dflt : Int) (cb : Option Nat) (now : Int) (h0 : 0 ≤ now)
+    (s : ConcCache.St K V) (hr : ConcCache.Reach dflt cb now s) (t : ConcCache.Tid) (hpc : (s.l t).pc = .ret) :
+    ∃ op, (s.l t).op = some op ∧
+      (isRemoval op = true →
+        match (s.l t).ec with
+        | some _ => (s.l t).fired = (s.l t).erased
+        | none => (s.l t).fired = []) ∧
+      (isRemoval op = false → (s.l t).fired = [] ∧ (s.l t).erased = []) :=
+  fired_eq_erased_at_ret dflt cb now h0 s hr t hpc
+
+/-- a `GetAndDelete`/`Delete` about to return removed nothing and fired nothing when the key was absent, and
+otherwise removed exactly one entry: its key with the value it found -/
+theorem C06_conc_getAndDelete_at_ret (dflt : Int) (cb : Option Nat) (now : Int) (h0 : 0 ≤ now)
+    (s : ConcCache.St K V) (hr : ConcCache.Reach dflt cb now s) (t : ConcCache.Tid) (hpc : (s.l t).pc = .ret)
+    (k : K) (ho : (s.l t).op = some (.getAndDelete k) ∨ (s.l t).op = some (.delete k)) :
+    match (s.l t).removed with
+    | none => (s.l t).fired = [] ∧ (s.l t).erased = []
+    | some i => (s.l t).erased = [(k, i.v)] := by
+  have hk : ConcCache.opKey (s.l t) = some k := by rcases ho with ho | ho <;> simp [ConcCache.opKey, ho]
+  have := gd_erased_at_ret dflt cb now h0 s hr t hpc
+  rcases ho with ho | ho
+  all_goals
+    have h := this _ ho rfl
+    cases hrm : (s.l t).removed with
+    | none => rw [hrm] at h; exact h
+    | some i =>
+      rw [hrm] at h
+      obtain ⟨k', hk', he⟩ := h
+      rw [hk] at hk'
+      cases hk'
+      exact he
+
+/-- **While a call is running, what has fired so far is a prefix of what it removed** (every reachable state).
+`GetAndDelete`/`Delete`: nothing has fired before the firing step, and once the `Compute` removed an entry the
+call removed exactly that one.  `DeleteExpired`: during the traversal and the firing loop, if the pass read a
+callback then fired ++ still-to-fire = removed; if it read none (then the model queues nothing) nothing fires. -/
+theorem C06_conc_fired_prefix (dflt : Int) (cb : Option Nat) (now : Int) (h0 : 0 ≤ now)
+    (s : ConcCache.St K V) (hr : ConcCache.Reach dflt cb now s) (t : ConcCache.Tid) :
+    ((s.l t).pc = .gdCompute → (s.l t).fired = [] ∧ (s.l t).erased = []) ∧
+    (((s.l t).pc = .gdReadCb ∨ (s.l t).pc = .gdFire) → (s.l t).fired = [] ∧
+        ∃ k i, ConcCache.opKey (s.l t) = some k ∧ (s.l t).removed = some i ∧ (s.l t).erased = [(k, i.v)]) ∧
+    (((s.l t).pc = .deReadCb ∨ (s.l t).pc = .deReadClock) → (s.l t).fired = [] ∧ (s.l t).erased = []) ∧
+    (((s.l t).pc = .deVisit ∨ (s.l t).pc = .deCompute ∨ (s.l t).pc = .deFire) →
+        match (s.l t).ec with
+        | some _ => (s.l t).fired ++ (s.l t).queue = (s.l t).erased
+        | none => (s.l t).fired = [] ∧ (s.l t).queue = []) :=
+  fired_prefix dflt cb now h0 s hr t
+
+/-- **The ledger and the per-call `fired` lists move together.**  For every step of every run and every `(k, v)`:
+the step appends an invocation `(cb, k, v)` to the global ledger if and only if it appends `(k, v)` to the
+stepping thread's `fired` list; then `cb` is the callback the call read; no other thread's locals change. -/
+theorem C06_conc_ledger_fired_coupled (dflt : Int) (cb : Option Nat) (now : Int) (h0 : 0 ≤ now)
+    (s s' : ConcCache.St K V) (t : ConcCache.Tid) (c : ConcCache.Choice K V) (δ : Nat)
+    (hr : ConcCache.Reach dflt cb now s) (hs : ConcCache.step s (some t) c δ = some s') (k : K) (v : V) :
+    ((∃ cb, s'.g.ledger = s.g.ledger ++ [(cb, k, v)]) ↔ (s'.l t).fired = (s.l t).fired ++ [(k, v)]) ∧
+    (∀ cb, s'.g.ledger = s.g.ledger ++ [(cb, k, v)] → (s.l t).ec = some cb) ∧
+    (∀ u, u ≠ t → s'.l u = s.l u) := by
+  obtain ⟨_, _, hst, hoth, _⟩ := reach_tstep dflt cb now h0 s s' t c δ hr hs
+  obtain ⟨h1, h2⟩ := ledger_fired_coupled t s.g (s.l t) c s'.g (s'.l t) hst k v
+  exact ⟨h1, h2, hoth⟩
+
+/-! ### Non-vacuity: `DeleteExpired` (thread 0) racing `GetAndDelete "live"` (thread 1), callback 7 installed,
+one expired and one live entry; both calls end at `ret`, each fired exactly what it removed -/
+def exConc : List (Option ConcCache.Tid × ConcCache.Choice String Nat × Nat) :=
+  [ (some 2, { op := some (.set "dead" 1 5) }, 0), (some 2, {}, 0), (some 2, {}, 0), (some 2, {}, 0),
+    (some 2, { op := some (.set "live" 2 100) }, 0), (some 2, {}, 0), (some 2, {}, 0), (some 2, {}, 0),
+    (none, {}, 6),                                                                   -- "dead" expires
+    (some 0, { op := some .deleteExpired }, 0), (some 0, {}, 0), (some 0, {}, 0),    -- T0 reads callback, clock
+    (some 0, { pick := 1, seen := some ⟨1, 5⟩ }, 0),                                 -- T0 visits "dead": expired
+    (some 1, { op := some (.getAndDelete "live") }, 0), (some 1, {}, 0),             -- T1 removes "live"
+    (some 0, {}, 0),                                                                 -- T0 removes "dead"
+    (some 1, {}, 0), (some 1, {}, 0),                                                -- T1 reads callback, fires
+    (some 0, { seen := some ⟨2, 100⟩ }, 0),                                          -- T0 visits "live" (stale copy): live
+    (some 0, {}, 0), (some 0, {}, 0), (some 0, {}, 0) ]                              -- T0 ends traversal, fires, done
+
+example : ∃ s, ConcCache.run (ConcCache.init 10 (some 7) 0) exConc = some s ∧
+    s.g.ledger = [(7, "live", 2), (7, "dead", 1)] ∧ s.g.items = [] ∧
+    (s.l 0).pc = .ret ∧ (s.l 0).op = some .deleteExpired ∧ (s.l 0).ec = some 7 ∧
+    (s.l 0).fired = [("dead", 1)] ∧ (s.l 0).erased = [("dead", 1)] ∧
+    (s.l 1).pc = .ret ∧ (s.l 1).op = some (.getAndDelete "live") ∧ (s.l 1).ec = some 7 ∧
+    (s.l 1).fired = [("live", 2)] ∧ (s.l 1).erased = [("live", 2)] ∧ (s.l 1).result = some (.val 2 true) :=
+  ⟨_, rfl, by decide, by decide, by decide, rfl, by decide, by decide, by decide, by decide, rfl,
+    by decide, by decide, by decide, by decide⟩
+
+end Conc
 
 end Props.C06
